@@ -1000,11 +1000,10 @@ Proof.
         apply ref_eqb_eq in E. exfalso. apply (NV v); [left; reflexivity|exact E].
       * unfold get_default_idx. rewrite Np.
         destruct (pdefault p) as [d|].
-        -- destruct (vps sg) as [s|]; [destruct (Nat.ltb i s)|].
-           ++ destruct (ref_eqb d NoValue) eqn:E; [|reflexivity]. reflexivity.
-           ++ cbn. reflexivity.
-           ++ cbn. reflexivity.
-        -- destruct (vps sg) as [s|]; [destruct (Nat.ltb i s)|]; reflexivity.
+        -- destruct (is_prefix_kind (pk p)).
+           ++ destruct (ref_eqb d NoValue) eqn:E; reflexivity.
+           ++ reflexivity.
+        -- destruct (is_prefix_kind (pk p)); reflexivity.
     + intros d q Hq. replace (S i + d)%nat with (i + S d)%nat by lia. apply N. exact Hq.
     + cbn [length] in L. lia.
     + intros v Hv. apply NV. right. exact Hv.
